@@ -53,7 +53,7 @@ func (postfinance) Generate(r *rand.Rand, o Opts) *Statement {
 	cats := []string{"", "", "bar", "Lebensmittel", "Wohnen & Energie", "Übriges"}
 	for i := range rows {
 		day += cal.Day(r.Intn(3))
-		a := randCents(r)
+		a := randCentsOrZero(r, st)
 		if r.Intn(4) != 0 {
 			a = a.Neg()
 		}
